@@ -87,7 +87,7 @@ pub fn disable() {
 
 pub fn poll(w: &mut World) {
     let hit = HIT.with(|h| h.replace((0, 0)));
-    if hit.1 != 0 {
+    if hit.1 != 0 && w.cfg.heap_watch {
         w.violation(
             "posted-buffer-freed",
             "heap",
